@@ -166,6 +166,10 @@ const budget = 10 * time.Second
 
 // verdict runs the input in the worker. ok=false means a C10 violation.
 func verdict(in *Input) (ok bool, msg string, rep sandbox.Reply) {
+	return verdictBudget(in, budget)
+}
+
+func verdictBudget(in *Input, budget time.Duration) (ok bool, msg string, rep sandbox.Reply) {
 	w := getWorker()
 	res, err := w.Do(sandbox.Request{API: in.API, Src: in.Src, Opts: in.Opts}, budget)
 	if err != nil {
@@ -185,8 +189,11 @@ func verdict(in *Input) (ok bool, msg string, rep sandbox.Reply) {
 		}
 		return false, reason + ": " + firstLines(res.Stderr, 6), rep
 	case sandbox.TimedOut:
-		// a busy machine is not a defect: re-run alone with 4x the budget
-		res2, err := w.Do(sandbox.Request{API: in.API, Src: in.Src, Opts: in.Opts}, 4*budget)
+		if budget >= 100*time.Second {
+			return false, fmt.Sprintf("no answer within %v for a %d-byte input (hang or super-polynomial time)", budget, len(in.Src)), rep
+		}
+		// a busy machine is not a defect: re-run with 12x the budget
+		res2, err := w.Do(sandbox.Request{API: in.API, Src: in.Src, Opts: in.Opts}, 12*budget)
 		if err != nil {
 			ev.Inconclusive("sandbox: " + err.Error())
 			return true, "", rep
@@ -201,19 +208,22 @@ func verdict(in *Input) (ok bool, msg string, rep sandbox.Reply) {
 		case sandbox.Died:
 			return false, "worker died on re-run: " + firstLines(res2.Stderr, 6), rep
 		default:
-			return false, fmt.Sprintf("no answer within %v for a %d-byte input (hang or super-polynomial time)", 4*budget, len(in.Src)), rep
+			return false, fmt.Sprintf("no answer within %v for a %d-byte input (hang or super-polynomial time)", 12*budget, len(in.Src)), rep
 		}
 	}
 	return true, "", rep
 }
 
-// ampVerdict judges an amplifier input of size parameter n.  Time that grows
-// like a small polynomial is allowed by the property, so the size is doubled
-// from a small start and a larger instance is only run while the measured
-// growth predicts an answer within the budget.  A violation is a fatal
-// outcome at any size, or growth steeper than n^3.5 between two consecutive
-// sizes (confirmed by a second measurement), or a missing answer at a size
-// that cubic growth from the previous size would have answered in time.
+// ampVerdict judges an amplifier input of size parameter n.  Time and memory
+// that grow like a small polynomial are allowed by the property, so the size
+// is doubled from a small start and the next size is only run while the last
+// one answered quickly.  Wall-clock time of one input varies by more than an
+// order of magnitude with heap state, so growth is judged on the bytes
+// allocated during the call (deterministic) and time only decides extreme
+// cases.  A violation is: a panic or fatal outcome at any size; allocation
+// growing faster than n^3.5 between two consecutive sizes (>= 256 MB at the
+// larger one); or no answer within 120 s at a size whose half answered
+// within 2 s.
 func ampVerdict(in *Input, n int) (bool, string, sandbox.Reply) {
 	fam := strings.TrimPrefix(in.Kind, "amp:")
 	var f func(int) string
@@ -232,50 +242,38 @@ func ampVerdict(in *Input, n int) (bool, string, sandbox.Reply) {
 	if size > n {
 		size = n
 	}
-	prevT, prevSize := 0.0, 0
-	var last sandbox.Reply
+	var prev sandbox.Reply
+	prevSize := 0
 	for {
 		cur := *in
 		cur.Src = f(size)
-		ok, msg, r := verdict(&cur)
+		ok, msg, r := verdictBudget(&cur, 120*time.Second)
 		if !ok {
 			*in = cur
 			if prevSize > 0 && strings.HasPrefix(msg, "no answer") {
-				msg = fmt.Sprintf("%s; n=%d answered in %.0f ms, so growth to n=%d is steeper than n^3.5", msg, prevSize, prevT, size)
+				msg = fmt.Sprintf("%s; n=%d answered in %.0f ms, so growth to n=%d is far steeper than cubic", msg, prevSize, prev.Millis, size)
 			}
 			return false, msg, r
 		}
-		last = r
-		t := r.Millis
-		if prevT > 50 && t > 1500 {
-			exp := math.Log2(t/prevT) / math.Log2(float64(size)/float64(prevSize))
+		if prevSize > 0 && r.AllocMB >= 256 && prev.AllocMB > 0.5 {
+			exp := math.Log2(r.AllocMB/prev.AllocMB) / math.Log2(float64(size)/float64(prevSize))
 			if exp > 3.5 {
-				p := *in
-				p.Src = f(prevSize)
-				_, _, rp := verdict(&p)
-				_, _, rc := verdict(&cur)
-				if rp.Millis > 50 {
-					exp2 := math.Log2(rc.Millis/rp.Millis) / math.Log2(float64(size)/float64(prevSize))
-					if exp2 > 3.5 {
-						*in = cur
-						return false, fmt.Sprintf("super-cubic time growth: n=%d takes %.0f ms, n=%d takes %.0f ms (exponent %.1f)", prevSize, rp.Millis, size, rc.Millis, exp2), rc
-					}
-				}
+				*in = cur
+				return false, fmt.Sprintf("super-cubic memory growth: n=%d allocates %.0f MB, n=%d allocates %.0f MB (exponent %.1f)", prevSize, prev.AllocMB, size, r.AllocMB, exp), r
 			}
 		}
 		if size >= n {
-			return true, "", last
+			return true, "", r
+		}
+		if r.Millis > 2000 {
+			ev.Class("amp-polynomial-slow:" + fam)
+			return true, "", r
 		}
 		next := size * 2
 		if next > n {
 			next = n
 		}
-		ratio := float64(next) / float64(size)
-		if math.Max(t, 1)*math.Pow(ratio, 3.5) > 20000 {
-			ev.Class("amp-polynomial-slow:" + fam)
-			return true, "", last
-		}
-		prevT, prevSize, size = t, size, next
+		prev, prevSize, size = r, size, next
 	}
 }
 
@@ -563,8 +561,8 @@ func genAmplifier(t *rapid.T) (string, string, int) {
 }
 
 func TestPropInputs(t *testing.T) {
-	ev.Rule("inputs <= 16 KiB (quick) / 64 KiB (thorough): arbitrary bytes, token soups from the WGSL vocabulary incl. hostile numerals, token-level mutations (delete/duplicate/swap/replace/splice/truncate) of corpus and generated valid programs, and 30 amplifier families (nesting, chains, long tokens, unterminated constructs) parameterised by n; each input runs in an isolated worker through tokenize / parse / lower / validate / one-call compile / all five backends with default or alternate options; violation = recovered panic, worker death (fatal error, heap > 1.5 GB) or no answer within 40 s after a solo re-run; non-trivial = non-blank input accepted by the parser (or lowered to a module with >= 1 type/function/global), or an amplifier with n >= 64; distinct = hash of bytes+api+options")
-	ev.Assume("time/memory polynomial bound approximated by fixed generous limits (10 s, re-run alone with 40 s; 1.5 GB heap) on inputs of at most 64 KiB")
+	ev.Rule("inputs <= 16 KiB (quick) / 64 KiB (thorough): arbitrary bytes, token soups from the WGSL vocabulary incl. hostile numerals, token-level mutations (delete/duplicate/swap/replace/splice/truncate) of corpus and generated valid programs, and 30 amplifier families (nesting, chains, long tokens, unterminated constructs) parameterised by n; each input runs in an isolated worker through tokenize / parse / lower / validate / one-call compile / all five backends with default or alternate options; violation = recovered panic, worker death (fatal error, live heap > 1.5 GB), no answer within 120 s on a re-run, or (amplifiers, sizes doubled while the previous one answers within 2 s) allocation growing faster than n^3.5; non-trivial = non-blank input accepted by the parser (or lowered to a module with >= 1 type/function/global), or an amplifier with n >= 64; distinct = hash of bytes+api+options")
+	ev.Assume("the polynomial time/memory bound is approximated by generous fixed limits (120 s, 1.5 GB live heap) and by the growth exponent of allocated bytes on amplifier families; CPU-only super-polynomial work shows up only as a missing answer")
 	rapid.Check(t, func(t *rapid.T) {
 		in := &Input{API: "all", Opts: "default"}
 		if rapid.IntRange(0, 1).Draw(t, "alt") == 1 {
